@@ -140,7 +140,7 @@ def window_rules(prog, res, f):
         if c is None:
             continue
         c0 = ir.strip(c)
-        if isinstance(c0, dict) and c0.get("k") == "bin" and c0["op"] in (">=", ">", "=="):
+        if isinstance(c0, dict) and c0.get("k") == "bin" and c0["op"] in (">=", ">", "==", "<=", "<"):
             sides = (c0["l"], c0["r"])
             has_win = [any(y.get("k") == "mem" and y["f"] == "filter_window_frames" for y in ir.walk(x)) for x in sides]
             # the window test compares a running count (an lvalue) with the window size
@@ -164,7 +164,20 @@ def window_rules(prog, res, f):
     acc_names = (acc_ap, acc_ap.lstrip("*") + "[0]")
     cnt_names = (cnt_ap, cnt_ap.lstrip("*") + "[0]")
     for b in tests:
-        tsucc = [s["to"] for s in b.succs if s.get("label") == "true" and s.get("to") is not None]
+        # the edge on which the window is complete: where count >= window size holds
+        from .. import linear as L_
+        an_ = L_.Analysis(prog)
+        T_, F_ = an_.branch(f, b.cond_node(), L_.State())
+
+        def complete(states):
+            ok_ = bool(states)
+            for s_ in states:
+                k_ = an_.read(s_, "self->filter_window_frames")
+                cn_ = [v for kk, v in s_.cells.items() if kk != "self->filter_window_frames"]
+                ok_ = ok_ and len(cn_) == 1 and s_.entails_le(L_.lsub(k_, cn_[0]))
+            return ok_
+        lab_ = "true" if complete(T_) else ("false" if complete(F_) else "true")
+        tsucc = [s["to"] for s in b.succs if s.get("label") == lab_ and s.get("to") is not None]
         loop = paths.innermost_loop(f, b.id)
         heads = [h for h, body in paths.natural_loops(f) if loop and body == loop]
         dst = {(heads[0], 0)} if heads and f.blocks[heads[0]].stmts else "exit"
@@ -358,89 +371,110 @@ CTYPE = {"uint8_t": (1, False), "unsigned char": (1, False), "uint16_t": (2, Fal
          "int8_t": (1, True), "signed char": (1, True), "char": (1, True), "int16_t": (2, True), "short": (2, True)}
 
 
+def _kernel_loop(prog, f, head, body, op_want, is_acc):
+    """problems of one per-pixel loop; index form  x[i] op= y[i]  or pointer
+    walk  *xo op= *y  with both pointers stepping by one element"""
+    from .. import linear as L
+    an0 = L.Analysis(prog)
+    stores = [(lv, op, rhs) for b in body for s_ in f.blocks[b].stmts for lv, op, rhs, w in ir.writes_of(s_)
+              if ir.strip(lv).get("k") in ("idx", "deref")]
+    problems = []
+    # no way out of the body except the loop condition
+    for b in body:
+        if b == head:
+            continue
+        for t in f.blocks[b].succ_ids():
+            if t not in body:
+                problems.append("the body can leave the loop before the last pixel")
+    if len(stores) != 1 or stores[0][1] != op_want:
+        return problems + ["the body is not a single element update with %s" % op_want]
+    lv, op, rhs = stores[0]
+    l0 = ir.strip(lv)
+    npx_of = lambda an, s_: an.read(s_, "acc->shape.strides.planes")
+    if l0.get("k") == "idx":
+        problems += L.counted_loop_problems(prog, f, head, body, npx_of)
+        xv = ir.strip(l0["b"])
+        if "float" not in (xv.get("t", "") if isinstance(xv, dict) else ""):
+            problems.append("the target is not the float payload")
+        ivk = an0.cellkey(f, l0["i"], L.State())
+        c = f.blocks[head].cond_node()
+        cvars = {an0.cellkey(f, y, L.State()) for y in ir.walk(c) if isinstance(y, dict) and y.get("k") == "var"} if c is not None else set()
+        if ivk not in cvars:
+            problems.append("the target is not indexed by the loop index")
+        if is_acc:
+            r0 = ir.strip(rhs)
+            if not (isinstance(r0, dict) and r0.get("k") == "idx" and an0.cellkey(f, r0["i"], L.State()) == ivk):
+                problems.append("the addend is not y[i]")
+        return problems
+    # pointer walk
+    tgt = ir.strip(l0["e"])
+    src = ir.strip(ir.strip(rhs)["e"]) if is_acc and isinstance(ir.strip(rhs), dict) and ir.strip(rhs).get("k") == "deref" else None
+    if not (isinstance(tgt, dict) and tgt.get("k") == "var") or (is_acc and not (isinstance(src, dict) and src.get("k") == "var")):
+        return problems + ["the element update does not go through simple pointers"]
+    if "float" not in tgt.get("t", ""):
+        problems.append("the target is not the float payload")
+    walkers = [tgt] + ([src] if is_acc else [])
+    rec = {"pre": [], "back": []}
+    an = L.Analysis(prog)
+    an.inline = False
+
+    def entry(f_, h, s_):
+        if f_ is f and h == head:
+            for v in walkers:
+                s_.cells["__0__" + v["n"]] = an.eval(f, v, s_)[0][0]
+    an.on_loop_pre = lambda f_, h, s_: rec["pre"].append(s_.copy()) if (f_ is f and h == head) else None
+    an.on_loop_entry = entry
+    an.on_backedge = lambda f_, h, s_: rec["back"].append(s_.copy()) if (f_ is f and h == head) else None
+    an.run(f, L.State())
+    if not rec["pre"] or not rec["back"]:
+        return problems + ["the loop body is never executed by the analysis"]
+    starts = {}
+    for s_ in rec["pre"]:
+        for v, base in zip(walkers, ("acc->data", "in->data")):
+            val = s_.cells.get("%s:%s" % (f.name, v["n"]))
+            want = s_.cells.get(base, L.lvar("ptr:" + base))
+            starts[v["n"]] = val
+            if val is None or not s_.entails_eq(L.lsub(val, want)):
+                problems.append("the walk over %s does not start at its first element" % base)
+    for s_ in rec["back"]:
+        npx = npx_of(an, s_)
+        for v in walkers:
+            v0, v1 = s_.cells.get("__0__" + v["n"]), s_.cells.get("%s:%s" % (f.name, v["n"]))
+            if v0 is None or v1 is None or not s_.entails_eq(L.lsub(v1, L.ladd(v0, L.lconst(1)))):
+                problems.append("a pointer does not advance by one element per iteration")
+        # some walker is bounded by start + npx
+        bounded = False
+        for v in walkers:
+            v0, st0 = s_.cells.get("__0__" + v["n"]), starts.get(v["n"])
+            if v0 is not None and st0 is not None and s_.entails_le(L.ladd(L.lsub(v0, L.ladd(st0, npx)), L.lconst(1))):
+                bounded = True
+        if not bounded:
+            problems.append("the body runs for an element that is not below npx (out of bounds)")
+    return sorted(set(problems))
+
+
 def kernels(prog, res, rule="R-KERNEL"):
     """The per-pixel loops of accumulate / normalize visit exactly the pixels
-    0 .. npx-1 (npx = shape.strides.planes of the accumulator) and apply
-    x[i] += y[i]  /  x[i] *= factor  to each, with x the float payload of the
-    accumulator and y the input payload read with the element type of the
-    sample type that selected the loop.  Loop bounds by the linear domain
-    (initial index 0, step 1, body only below npx, exit only at >= npx)."""
-    from .. import linear as L
+    0 .. npx-1 (npx = shape.strides.planes of the accumulator) and apply one
+    element update  x[i] += y[i]  /  x[i] *= factor  (or the same as a pointer
+    walk) to each, with x the float payload of the accumulator and y the input
+    payload read with the element type of the sample type that selected the
+    loop.  Bounds by the linear domain's loop hooks."""
     for fname, op_want in (("accumulate", "+="), ("normalize", "*=")):
         f = prog.func(fname)
         res.touched(f)
         loops = paths.natural_loops(f)
         if not loops:
             raise AnalysisBroken("%s has no per-pixel loop" % fname)
-        rec = {"pre": [], "back": []}
-        an = L.Analysis(prog, on_loop_pre=lambda f_, h, s_: rec["pre"].append((h, s_.copy())) if f_ is f else None,
-                        on_backedge=lambda f_, h, s_: rec["back"].append((h, s_.copy())) if f_ is f else None)
-        rets = an.run(f, L.State())
         for head, body in loops:
             line = f.blocks[head].tline or f.line
             inst = "%s: loop at line %s visits pixels 0 .. npx-1" % (fname, line)
-            ivs = {an.cellkey(f, lv, L.State()) for b in body for s_ in f.blocks[b].stmts
-                   for lv, op, rhs, w in ir.writes_of(s_) if ir.strip(lv).get("k") == "var"}
-            problems = []
-            if len(ivs) != 1:
-                problems.append("no single index variable")
-                iv = None
-            else:
-                iv = ivs.pop()
-            pre = [s_ for h, s_ in rec["pre"] if h == head]
-            back = [s_ for h, s_ in rec["back"] if h == head]
-            if iv and (not pre or not back):
-                problems.append("the loop body is never executed by the analysis")
-            for s_ in pre if iv else []:
-                if iv not in s_.cells or not s_.entails_eq(s_.cells[iv]):
-                    problems.append("the index does not start at 0")
-            for s_ in back if iv else []:
-                i0 = L.lvar("%s#%d" % (iv, s_.ver.get(iv, 1) - 1))
-                npx = an.read(s_, "acc->shape.strides.planes")
-                if not s_.entails_eq(L.lsub(s_.cells.get(iv, {}), L.ladd(i0, L.lconst(1)))):
-                    problems.append("the index does not advance by one")
-                if not s_.entails_le(L.ladd(L.lsub(i0, npx), L.lconst(1))):
-                    problems.append("the body runs for an index that is not below acc->shape.strides.planes (out of bounds)")
-            # body: a single compound store x[i] op= ...
-            stores = [(lv, op, rhs) for b in body for s_ in f.blocks[b].stmts for lv, op, rhs, w in ir.writes_of(s_)
-                      if ir.strip(lv).get("k") == "idx"]
-            if len(stores) != 1 or stores[0][1] != op_want:
-                problems.append("the body is not a single  x[i] %s ...  update" % op_want)
-            else:
-                lv, op, rhs = stores[0]
-                xi = ir.strip(lv)
-                xv = ir.strip(xi["b"])
-                xt = xv.get("t", "") if isinstance(xv, dict) else ""
-                if "float" not in xt:
-                    problems.append("the target is not the float payload")
-                if iv and an.cellkey(f, xi["i"], L.State()) != iv:
-                    problems.append("the target is not indexed by the loop index")
-                if fname == "accumulate":
-                    r0 = ir.strip(rhs)
-                    if not (isinstance(r0, dict) and r0.get("k") == "idx" and an.cellkey(f, r0["i"], L.State()) == iv):
-                        problems.append("the addend is not y[i]")
+            problems = _kernel_loop(prog, f, head, body, op_want, fname == "accumulate")
             if problems:
                 res.fail(rule, inst, "%s|%s|loop" % (rule, fname), "%s:%s" % (f.file, line),
                          "%s: %s: pixels are skipped, summed twice or accessed out of bounds, so the emitted frame is not the mean" % (fname, "; ".join(sorted(set(problems)))))
             else:
-                res.oblige(rule, inst, True, "i = 0; i < npx; ++i; x[i] %s .." % op_want, "%s:%s" % (f.file, line))
-        # exit only at i >= npx (successful returns)
-        bad_exit = False
-        for rv, s_ in rets:
-            if fname == "accumulate" and (rv is None or not L.is_const(rv) or rv.get(L.ONE, 0) == 0):
-                continue
-            ivk = [k for k in s_.cells if k.startswith(fname + ":") and k.split(":")[1] in
-                   {ir.strip(lv).get("n") for h, body in loops for b in body for st_ in f.blocks[b].stmts
-                    for lv, op, rhs, w in ir.writes_of(st_) if ir.strip(lv).get("k") == "var"}]
-            npx = an.read(s_, "acc->shape.strides.planes")
-            if not ivk or not all(s_.entails_le(L.lsub(npx, s_.cells[k])) for k in ivk):
-                bad_exit = True
-        inst = "%s: returns success only after the last pixel" % fname
-        if bad_exit:
-            res.fail(rule, inst, "%s|%s|exit" % (rule, fname), f.loc(),
-                     "%s can finish before index npx was reached: trailing pixels are not processed" % fname)
-        else:
-            res.oblige(rule, inst, True, "", f.loc())
+                res.oblige(rule, inst, True, "", "%s:%s" % (f.file, line))
     # element type per sample type
     f = prog.func("accumulate")
     sws = [s_ for s_ in tables.switches(f) if s_["enum"] == "SampleType"]
@@ -641,6 +675,6 @@ def run(ctx, res):
     res.require_min("O-INIT-RMW", 1)
     res.require_min("T-EXH", 5)
     res.require_min("R-WINDOW", 16)
-    res.require_min("R-KERNEL", 14)
+    res.require_min("R-KERNEL", 12)
     res.require_min("PAIR", 1)
     res.require_min("R-CONSUME", 1)
